@@ -10,7 +10,9 @@ from lib import runner, stateful
 
 POOL = ["a", "A", "b", "B", "ab", "Ab", "aB", "c", "x y", "x_y", "Z9", "z9", "é", "É", "t1", "T1",
         # letters whose casefold() differs from lower(): the documented rule is str.lower() on both sides
-        "Straße", "STRASSE", "strasse", "ſ", "s", "ς", "σ", "Σ"]
+        "Straße", "STRASSE", "strasse", "ſ", "s", "ς", "σ", "Σ",
+        # the empty string is a label like any other (falsy: a truthiness test instead of 'is None' loses it)
+        ""]
 PLAIN = [i for i, l in enumerate(POOL) if l.isascii() and l.isalnum()]
 
 CONFIG = {
@@ -404,7 +406,8 @@ class Interp(object):
         ones = set(i for i, ch in enumerate(reversed(bs)) if ch == "1")
         V(set(bs) <= set("01") and ones == set(i for i in range(want_mask.bit_length()) if (want_mask >> i) & 1),
           "bitstring", lambda: "mask %s rendered %r" % (bin(want_mask), bs))
-        if model:
+        if model and all(m[0].label != "" for m in model):
+            # (an empty label renders as an empty token, which names nothing: the textual clause needs non-empty labels)
             self.check_newick(want_mask, subset, rest)
         # lookups
         label = POOL[a["pl"]]
